@@ -46,8 +46,8 @@ def main():
         out['suite_missing'] = missing[:5]
         env = dict(os.environ, PYTHONDONTWRITEBYTECODE='1')
         dp = os.path.abspath(os.path.join(d, demo))
-        r1 = subprocess.run(['/venv/bin/python', dp, repo], capture_output=True, text=True, timeout=600, env=env, cwd=tmp)
-        r0 = subprocess.run(['/venv/bin/python', dp, '/repo'], capture_output=True, text=True, timeout=600, env=env, cwd=tmp)
+        r1 = subprocess.run(['/venv/bin/python', dp, repo], capture_output=True, text=True, errors='replace', timeout=600, env=env, cwd=tmp)
+        r0 = subprocess.run(['/venv/bin/python', dp, '/repo'], capture_output=True, text=True, errors='replace', timeout=600, env=env, cwd=tmp)
         out['demo_fails_with_patch'] = r1.returncode != 0
         out['demo_passes_without'] = r0.returncode == 0
         out['demo_output_with_patch'] = (r1.stdout + r1.stderr)[-400:]
@@ -55,7 +55,7 @@ def main():
         out['checks'] = {}
         for p in props:
             r = subprocess.run([os.path.join(VERIF, 'check'), p, '--tier', 'quick', '--no-evidence'], cwd=VERIF,
-                               env=dict(os.environ, VERIF_REPO=repo), capture_output=True, text=True)
+                               env=dict(os.environ, VERIF_REPO=repo), capture_output=True, text=True, errors='replace')
             viol = [l for l in r.stdout.splitlines() if l.startswith('VIOLATION')]
             det = [l.strip() for l in r.stdout.splitlines() if l.startswith('  ')][:1]
             out['checks'][p] = {'exit': r.returncode, 'caught': r.returncode == 1 and bool(viol), 'detail': det[0][:300] if det else r.stdout[-200:]}
